@@ -108,9 +108,25 @@ pub struct Db {
     /// one query of one member of the sequence
     #[serde(default)]
     pub epoch_errors: Vec<(u8, String, Answer)>,
+    /// the text of the server's `F` answers: 0 = a short ASCII message; k > 0 = (k-1) % 4 ASCII
+    /// letters followed by 400 two-byte (k <= 4) or three-byte (k > 4) characters - an error
+    /// message in a language other than English, at every byte alignment
+    #[serde(default)]
+    pub f_text: u8,
 }
 
 impl Db {
+    pub fn f_message(&self) -> String {
+        match self.f_text {
+            0 => "injected error".to_string(),
+            k => {
+                let c = if k <= 4 { '\u{e9}' } else { '\u{2018}' };
+                let mut t = "a".repeat((k as usize - 1) % 4);
+                t.extend(std::iter::repeat(c).take(400));
+                t
+            }
+        }
+    }
     /// recursively expanded AS members of an as-set, as IRRd computes them: unknown nested sets
     /// contribute nothing, cycles are cut
     pub fn as_set_members(&self, name: &str) -> Option<BTreeSet<u32>> {
@@ -287,7 +303,7 @@ fn answer(db: &Db, line: &str, epoch: usize) -> Option<Vec<u8>> {
             Answer::Data => None,
             Answer::NotFound => Some(b"D\n".to_vec()),
             Answer::NotUnique => Some(b"E\n".to_vec()),
-            Answer::Other => Some(b"F injected error\n".to_vec()),
+            Answer::Other => Some(format!("F {}\n", db.f_message()).into_bytes()),
         }
     };
     if line == "!!" {
